@@ -24,6 +24,7 @@ def jobs(tier, seed):
         for nl in (0, 1, 2) if p in (1, 102) else (1,):
             out.append(('worker.p=%d.links=%d' % (p, nl), 'h_worker', dict(period=p, nlinks=nl, K=K)))
     out.append(('restart', 'h_restart', {}))
+    out.append(('restart.stop-during-tick', 'h_restart_busy', {}))
     for p in (1, 102):
         out.append(('links-change.p=%d' % p, 'h_links_change', dict(period=p)))
     return out
@@ -179,3 +180,35 @@ def h_links_change(ctx, period):
                         ctx.check('tick%d.link%d.text' % (nt, j), nul and len(toks) == 3 and toks[0] == 'IND' and toks[1] == 'CLOCK' and bool(eq(toks[2], (k0 + nt) * period) is not False))
                         if len(toks) == 3: ctx.check('tick%d.link%d.fn' % (nt, j), eq(toks[2], (k0 + nt) * period))
                 nt += 1
+
+
+def h_restart_busy(ctx):
+    """stop() arrives while the worker is past its wait: the tick in flight completes between breaker.set() and the return of
+    join() - a legal schedule of the two threads; the next start() still begins at the start frame"""
+    T = env.load(ctx, 'gsm_shared', 'udp_link', 'app_common', 'clck_gen')
+    net, log, rnd = env.std_env(ctx, T)
+    cg = T.clck_gen
+    with env.symbolic(ctx):
+        hook = [None]
+        class BusyThread(env.FakeThread):
+            def join(self, timeout=None):
+                if hook[0] is not None: hook[0]()
+                env.FakeThread.join(self, timeout)
+        class Thr(env.FakeThreading): Thread = BusyThread
+        cg.threading = Thr
+        start = ctx.int('start', 0, HYPER - 1)
+        gen = cg.CLCKGen([], clck_start=start)
+        seen = []
+        gen.clck_handler = lambda fn: seen.append(fn)
+        gen.start()
+        for _ in range(2): gen.send_clck_ind()
+        hook[0] = gen.send_clck_ind
+        with ctx.no_raise('stop:no-exception'):
+            gen.stop()
+        hook[0] = None
+        ctx.check('stopped', gen.running is False)
+        with ctx.no_raise('start:no-exception'):
+            gen.start()
+        del seen[:]
+        gen.send_clck_ind()
+        ctx.check('restart-begins-at-start-frame', eq(seen[0], start) if len(seen) == 1 else False, got=repr(seen[:1]))
